@@ -287,6 +287,11 @@ func (P *Program) SetReplacements(extra map[string]string) error {
 			}
 			f, err := P.findFunc(repl)
 			if err != nil {
+				if len(P.DroppedOverlays) > 0 {
+					// the replacement lived in a harness file that was dropped: the
+					// harnesses that need it are in that file too
+					continue
+				}
 				return fmt.Errorf("replace %s: %v", callee, err)
 			}
 			P.Repl[callee] = f
